@@ -332,7 +332,7 @@ func (w *world) eval(u *unitCase, toCoq bool) (string, obs) {
 				return "skipped", o
 			}
 		}
-		if o.Fatal == "" && !bytes.Equal(bytes.Join(o.NetSeen, nil), u.Doc.Body) {
+		if o.Fatal == "" && !u.Gzip && !bytes.Equal(bytes.Join(o.NetSeen, nil), u.Doc.Body) {
 			o.Fatal = "transport delivered other bytes than the origin served (not a C15 matter)"
 		}
 		if o.Fatal == "" {
@@ -373,6 +373,9 @@ func (w *world) finishKeyed(u *unitCase, o obs, toCoq bool, key string) (string,
 		if u.HighLevel {
 			r.Count("e2e:highlevel-" + u.HLMode)
 		}
+		if u.Gzip {
+			r.Count("e2e:gzip")
+		}
 	}
 	r.Count("site:" + string(u.Doc.Site))
 	r.Count("charset:" + u.Doc.Charset)
@@ -382,7 +385,7 @@ func (w *world) finishKeyed(u *unitCase, o obs, toCoq bool, key string) (string,
 	r.Count(fmt.Sprintf("chunks:%d", min(len(u.Chunks), 5)))
 	r.Count("buf:" + u.BufMode)
 	c := hk.Case{Desc: map[string]interface{}{"kind": u.Kind, "case": u, "obs": o, "class": class, "body_hex": hexCap(u.Doc.Body, 200)}}
-	if toCoq && !u.HighLevel && o.Fatal == "" && ((u.FailAt < 0 && o.EndErr == "EOF") || (u.FailAt >= 0 && o.EndErr == "other")) && w.coqText < w.coqCap {
+	if toCoq && !u.HighLevel && !u.Gzip && o.Fatal == "" && ((u.FailAt < 0 && o.EndErr == "EOF") || (u.FailAt >= 0 && o.EndErr == "other")) && w.coqText < w.coqCap {
 		t := buildTables(u)
 		// hypothesis instance check: streaming over this split == one-shot on the whole body (x/text)
 		for n, s := range t.Partial {
